@@ -116,6 +116,10 @@ def lift_case_st(draw):
         # the right-hand side is one of the Vector's own components (v *= v.x, v /= v.y)
         case["rhs"] = {"k": "comp", "c": draw(st.integers(0, nvec - 1))}
         return case
+    if group == "inplace" and nvec >= 2 and draw(st.integers(0, 5)) == 0:
+        # ... or a Vector that wraps the left operand's own components in another order: Vector(v.y, v.x)
+        case["rhs"] = {"k": "perm", "p": draw(st.permutations(list(range(nvec))))}
+        return case
     if rk == "V":
         n2 = nvec if draw(st.integers(0, 5)) else draw(st.integers(1, 3))
         case["rhs"] = draw(vs.vector_specs(units=[ub], dtypes=[dtb], shape=sb, nvec=n2))
@@ -260,12 +264,18 @@ def inplace_lifting(case, r):
         # v op= v.<c>: every component must be combined with the value that component had before the statement
         rhs = list(v._xyz.values())[case["rhs"]["c"]]
         rhs_ref = list(ref._xyz.values())[case["rhs"]["c"]].copy()
+    elif rk == "perm":
+        # the components of v itself (no copies) in another order; the reference combines with their values before
+        rhs = osyris.Vector(*[list(v._xyz.values())[j] for j in case["rhs"]["p"]])
+        rhs_ref = osyris.Vector(*[list(ref._xyz.values())[j].copy() for j in case["rhs"]["p"]])
+        rk = "V"
+        r.label("rhs_own_components_permuted")
     else:
         rhs = vs.build(case["rhs"], osyris)
         rhs_ref = rhs
     nvec = len(case["v"]["comps"])
     r.label("group_inplace", f"nvec_{nvec}", "rhs_" + rk)
-    if rk == "V" and len(case["rhs"]["comps"]) != nvec:
+    if rk == "V" and case["rhs"]["k"] == "V" and len(case["rhs"]["comps"]) != nvec:
         r.label("nvec_mismatch")
         before = [c.values.copy() for c in v._xyz.values()]
         try:
@@ -283,14 +293,14 @@ def inplace_lifting(case, r):
         warnings.simplefilter("ignore")
         want, w_exc = [], None
         for i, c in enumerate(ref._xyz.values()):
-            other = list(rhs._xyz.values())[i].copy() if rk == "V" else rhs_ref
+            other = list(rhs_ref._xyz.values())[i].copy() if rk == "V" else rhs_ref
             try:
                 want.append(_iapply(op, c, other))
             except Exception as e:
                 w_exc = e
                 break
         try:
-            res = _iapply(op, v, rhs.copy() if rk == "V" else rhs)
+            res = _iapply(op, v, rhs.copy() if (rk == "V" and case["rhs"]["k"] == "V") else rhs)
             g_exc = None
         except Exception as e:
             res, g_exc = None, e
